@@ -23,6 +23,7 @@ def prim_types():
 
 def pool(kind: str, rng: random.Random):
     """Two distinct concrete values for the two tokens of a primitive kind."""
+    from metador_core.schema import types as T
     if kind == "bool":
         return [True, False]
     if kind == "int":
@@ -31,12 +32,18 @@ def pool(kind: str, rng: random.Random):
         return rng.sample([0.5, 1e-300, 1e300, 0.1 + 0.2, -2.75, 1 / 3, 5e-324, 123456789.123456789, -0.0 + 1.0], 2)
     if kind in ("str", "nestr"):
         return rng.sample(STR_POOL, 2)
+    # string-encoded kinds are given as text or as the objects a program would pass (chosen per value)
     if kind == "duration":
-        return rng.sample(["PT3H4M1S", "P1D", "PT0.5S", "P2W", "PT36H", "P1DT1S", "PT1M"], 2)
+        a, b = rng.sample(["PT3H4M1S", "P1D", "PT0.5S", "P2W", "PT36H", "P1DT1S", "PT1M",
+                           ("obj", dict(days=3)), ("obj", dict(months=1, days=2)), ("obj", dict(years=1, hours=12)),
+                           ("obj", dict(weeks=1, seconds=0.25))], 2)
+        return [T.Duration(**x[1]) if isinstance(x, tuple) else x for x in (a, b)]
     if kind == "unit":
-        return rng.sample(["meter", "kilogram / second ** 2", "candela * meter", "1 / second", "kelvin"], 2)
+        return [T.PintUnit(x) if rng.random() < 0.4 else x
+                for x in rng.sample(["meter", "kilogram / second ** 2", "candela * meter", "1 / second", "kelvin"], 2)]
     if kind == "quantity":
-        return rng.sample(["5 meter", "7.12 kilogram / second ** 2", "0 second", "1e-09 meter", "-3 kelvin", "2.5 1 / second"], 2)
+        return [T.PintQuantity(x) if rng.random() < 0.4 else x
+                for x in rng.sample(["5 meter", "7.12 kilogram / second ** 2", "0 second", "1e-09 meter", "-3 kelvin", "2.5 1 / second"], 2)]
     if kind == "literal":
         return ["a", "b"]
     if kind == "url":
